@@ -111,6 +111,12 @@ def relations(case, ctx):
                 ctx.violation("mass-bounds", "negative pixel or pixel total above the total weight",
                               observed=[float(both.min()), float(both.sum())], expected=[0.0, wts[i] + wts[j]], extra=ex)
         ctx.outcome(np.round(single[0], 9).tolist())
+        # a collection of 9 diagrams: image k must be the image of diagram k
+        coll9 = [np.array([POINTS[(3 * k + j) % len(POINTS)] for j in range(1 + k % 4)], dtype=float) for k in range(9)]
+        out9 = ctx.call(im.transform, coll9)
+        ctx.valid()
+        if not (isinstance(out9, list) and len(out9) == 9 and all(np.array_equal(np.asarray(o), np.asarray(im.transform(d))) for o, d in zip(out9, coll9))):
+            ctx.violation("collection", "transform of a 9-diagram collection does not return the image of diagram k at position k", extra=ex0)
         # large diagrams: union of two halves, reversed order, zero-weight rows mixed in
         if weight in (WEIGHTS[0], WEIGHTS[2]) and case["pixel"] == 1.0:
             from checks.c04 import big_diagram
